@@ -5,7 +5,7 @@
 Require Extraction.
 Require Import ExtrOcamlBasic.
 From Coq Require Import List NArith ZArith.
-From SDB Require Import Base.Bytes Base.Assoc Params Model.Codec Model.Lock Model.Page Model.Pool Model.SqlRef Model.Catalog Model.Query Model.Wal Model.LogCodec Model.WalTrace Model.Sched Model.ReqMgr Model.Engine Model.IndexWrap Model.Trace Model.Join Model.SkipList Model.Startup Model.HashTable Model.Heap Model.TupleCodec Model.CatalogRows Model.TmpPage Model.WalLink Model.PageAlloc.
+From SDB Require Import Base.Bytes Base.Assoc Params Model.Codec Model.Lock Model.Page Model.Pool Model.SqlRef Model.Catalog Model.Query Model.Wal Model.LogCodec Model.WalTrace Model.Sched Model.ReqMgr Model.Engine Model.IndexWrap Model.Trace Model.Join Model.SkipList Model.Startup Model.HashTable Model.Heap Model.TupleCodec Model.CatalogRows Model.TmpPage Model.WalLink Model.PageAlloc Model.Clock.
 
 Extraction Blacklist List String Int.
 
@@ -63,4 +63,6 @@ Extraction "sdbmodel.ml"
   link_ok link_first_violation link_checked
   (* M3a page-id allocation and reuse across restarts (C13, C10) *)
   pa_init pa_step pa_client_ok pa_image_ok pa_inuse_nodup pa_new_fresh pa_reusable_ok pa_lset
+  (* M3c the pool's replacer (a clock in name, a first-in-first-out queue in fact) (C13) *)
+  clock_init clock_step clock_run clock_dump
   N.of_nat N.to_nat Z.of_N Z.to_N Z.compare N.compare.
